@@ -209,6 +209,15 @@ def mergeOverlapCells (ms : List MObj) : List MObj :=
 def meetsB (a b : Rect) : Bool :=
   decide (a.c1 ≤ b.c2 ∧ b.c1 ≤ a.c2 ∧ a.r1 ≤ b.r2 ∧ b.r1 ≤ a.r2)
 
+/-! ### shared formula indices (cell.go: countSharedFormula)
+
+Only the allocation rule is modelled: `setSharedFormula` gives a new group the index `countSharedFormula()`,
+which scans every cell and returns (highest index in use) + 1. -/
+
+/-- `countSharedFormula` over the indices in use, in scan order -/
+def nextSharedIndex (used : List Nat) : Nat :=
+  used.foldl (fun count i => if i + 1 > count then i + 1 else count) 0
+
 /-! ### payloads -/
 
 /-- the Go setter a write goes through; its skeleton is looked up in the facts -/
